@@ -445,9 +445,70 @@ async fn run_extractor(c: &StreamCase<'_>, evs: Vec<Ev>, cnt: Rc<Counters>) -> O
     }
 }
 
+async fn h_bytes(b: Bytes) -> String {
+    format!("{}:{}", b.len(), fnv(&b))
+}
+async fn h_string(b: String) -> String {
+    format!("{}:{}", b.len(), fnv(b.as_bytes()))
+}
+async fn h_json(b: web::Json<String>) -> String {
+    format!("{}:{}", b.len(), fnv(b.as_bytes()))
+}
+async fn h_form(b: web::Form<FormT>) -> String {
+    format!("{}:{}", b.a.len(), fnv(b.a.as_bytes()))
+}
+
+/// the same extractors behind a real `App` service and a real `h1::Payload` (`set_payload`)
+async fn run_via_service(c: &StreamCase<'_>, wire: Vec<u8>) -> Obs {
+    use actix_web::{test, App};
+    // `set_payload` installs a true Content-Length; a lying / unparsable one is put on top of it
+    // (so `cl=none` does not exist on this path: the generator always gives a value)
+    let mut req = TestRequest::post().uri("/").set_payload(wire);
+    match c.ex {
+        "json" => req = req.insert_header(("content-type", "application/json")),
+        "form" => req = req.insert_header(("content-type", "application/x-www-form-urlencoded")),
+        _ => {}
+    }
+    match c.cl {
+        "none" => {}
+        "bad" => req = req.insert_header(("content-length", "12x")),
+        n => req = req.insert_header(("content-length", n.to_owned())),
+    }
+    if let Some(h) = enc_header(c.enc) {
+        req = req.insert_header(("content-encoding", h));
+    }
+    let req = req.to_request();
+    macro_rules! go {
+        ($app:expr) => {{
+            let app = test::init_service($app).await;
+            let resp = test::call_service(&app, req).await;
+            let st = resp.status().as_u16();
+            let body = test::read_body(resp).await;
+            (st, body)
+        }};
+    }
+    let (st, body) = match (c.ex, c.lim) {
+        ("bytes", Some(l)) => go!(App::new().app_data(web::PayloadConfig::new(l)).route("/", web::post().to(h_bytes))),
+        ("bytes", None) => go!(App::new().route("/", web::post().to(h_bytes))),
+        ("string", Some(l)) => go!(App::new().app_data(web::PayloadConfig::new(l)).route("/", web::post().to(h_string))),
+        ("string", None) => go!(App::new().route("/", web::post().to(h_string))),
+        ("json", Some(l)) => go!(App::new().app_data(web::JsonConfig::default().limit(l)).route("/", web::post().to(h_json))),
+        ("json", None) => go!(App::new().route("/", web::post().to(h_json))),
+        ("form", Some(l)) => go!(App::new().app_data(web::FormConfig::default().limit(l)).route("/", web::post().to(h_form))),
+        _ => go!(App::new().route("/", web::post().to(h_form))),
+    };
+    if st == 200 {
+        let text = String::from_utf8_lossy(&body).to_string();
+        let len: usize = text.split(':').next().and_then(|x| x.parse().ok()).unwrap_or(usize::MAX);
+        Obs { res: format!("ok:{}", text), st: "-".into(), osz: "-".into(), data: Some(vec![0u8; len.min(1 << 26)]) }
+    } else {
+        Obs { res: "err".into(), st: st.to_string(), osz: "-".into(), data: None }
+    }
+}
+
 /// what the request decoder hands on, measured on the side with the same wire script:
 /// (items pulled from the wire when the output appeared, output length); last entry = eof
-async fn decode_profile(enc: &str, evs: Vec<Ev>) -> (Vec<(usize, usize)>, bool) {
+async fn decode_profile(enc: &str, evs: Vec<Ev>) -> (Vec<(usize, usize)>, bool, bool) {
     use futures_util::StreamExt as _;
     let cnt = Rc::new(Counters::default());
     let ce = match enc {
@@ -460,16 +521,20 @@ async fn decode_profile(enc: &str, evs: Vec<Ev>) -> (Vec<(usize, usize)>, bool) 
     let mut d = dev::Decompress::new(ScriptStream::new(evs, cnt.clone()), ce);
     let mut out = Vec::new();
     let mut failed = false;
+    let mut out_at_eof = false;
     while let Some(item) = d.next().await {
         match item {
-            Ok(b) => out.push((cnt.pulled.get(), b.len())),
+            Ok(b) => {
+                out_at_eof |= cnt.eof.get();
+                out.push((cnt.pulled.get(), b.len()))
+            }
             Err(_) => {
                 failed = true;
                 break;
             }
         }
     }
-    (out, failed)
+    (out, failed, out_at_eof)
 }
 
 fn overflow_class(res: &str) -> bool {
@@ -498,6 +563,27 @@ fn run_stream(case: &str, ex: &str) -> CaseResult {
         "ue" => 32_768,
         _ => 262_144,
     });
+
+    if kv(case, "via") == Some("svc") {
+        let obs = block_on_system(run_via_service(&sc, wire.clone()));
+        let mut r = CaseResult::ok(format!("{} st={} pulled=* eof=* osz=*", obs.res, obs.st));
+        let expect_len = match ex {
+            "json" | "form" => plain.len().saturating_sub(2),
+            _ => plain.len(),
+        };
+        if let Some(d) = &obs.data {
+            if plain.len() > eff_limit {
+                r = r.fail("accepted-over-limit", format!("body of {} bytes accepted with limit {} (via service)", plain.len(), eff_limit));
+            } else if d.len() != expect_len {
+                r = r.fail("wrong-body", format!("handler saw {} bytes, sent {}", d.len(), expect_len));
+            }
+        } else if plain.len() > eff_limit && cl != "bad" && obs.st != "413" {
+            r = r.fail("overflow-status", format!("{} bytes over limit {} answered with status {}", plain.len(), eff_limit, obs.st));
+        } else if plain.len() <= eff_limit && obs.st == "413" && (cl == "none" || cl.parse::<usize>().map_or(false, |d| d <= eff_limit)) {
+            r = r.fail("within-limit-overflow", format!("{} bytes, limit {}: 413 (via service)", plain.len(), eff_limit));
+        }
+        return r.tag("via:service").tag(&format!("ex:{}", ex)).tag(&format!("enc:{}", enc));
+    }
 
     let (obs, cnt, reference, profile) = block_on_system(async {
         let cnt = Rc::new(Counters::default());
@@ -584,7 +670,10 @@ fn run_stream(case: &str, ex: &str) -> CaseResult {
         if before_last > eff_limit {
             r = r.fail("pulled-beyond-limit", format!("{} bytes already taken when the next chunk was pulled, limit {}", before_last, eff_limit));
         }
-    } else if let Some((prof, failed)) = &profile {
+    } else if let Some((prof, failed, out_at_eof)) = &profile {
+        if *out_at_eof {
+            r = r.tag("decoder-output-at-eof");
+        }
         // expected stop: the first decoded output that pushes the decoded total over the limit
         let mut cum = 0usize;
         let mut expect_pulled = None;
@@ -604,6 +693,9 @@ fn run_stream(case: &str, ex: &str) -> CaseResult {
         let max_wire = toks.iter().map(|t| if let Tok::Chunk(n) = t { *n } else { 0 }).max().unwrap_or(0);
         if max_out > eff_limit + max_wire {
             r = r.tag("O6:decoded-chunk>limit+wire-chunk");
+            let ratio = max_out / (eff_limit + max_wire).max(1);
+            let bucket = if ratio >= 1000 { ">=1000x" } else if ratio >= 100 { ">=100x" } else if ratio >= 10 { ">=10x" } else { "<10x" };
+            r = r.tag(&format!("O6:decoded-chunk/(limit+wire-chunk){}", bucket));
         }
         if *failed {
             r = r.tag("decoder-error");
@@ -964,8 +1056,52 @@ fn run_fb(case: &str) -> CaseResult {
     r
 }
 
+// ------------------------------------------------------------------------------------------
+// the public `Limits` API call by call (continuing after refusals)
+
+fn run_limits(case: &str) -> CaseResult {
+    use actix_multipart::form::Limits;
+    let total: usize = kv(case, "total").and_then(|v| v.parse().ok()).unwrap_or(0);
+    let mem: usize = kv(case, "mem").and_then(|v| v.parse().ok()).unwrap_or(0);
+    let field: Option<usize> = kv(case, "field").and_then(|v| v.parse().ok());
+    let mut l = Limits::new(total, mem);
+    l.field_limit_remaining = field;
+    let mut out = Vec::new();
+    let mut r = CaseResult::ok(String::new());
+    // reference: sums of what has been accepted so far (per budget)
+    for op in kv(case, "ops").unwrap_or("").split(',').filter(|x| !x.is_empty()) {
+        let Some((b, m)) = op.split_once(':') else { continue };
+        let bytes: usize = b.parse().unwrap_or(0);
+        let in_mem = m == "1";
+        let before = (l.total_limit_remaining, l.memory_limit_remaining, l.field_limit_remaining);
+        let fits = bytes <= before.0 && (!in_mem || bytes <= before.1) && before.2.map_or(true, |f| bytes <= f);
+        let ok = match l.try_consume_limits(bytes, in_mem) {
+            Ok(()) => true,
+            Err(MultipartError::Payload(PayloadError::Overflow)) => false,
+            Err(e) => {
+                r = r.fail("limits-error-kind", format!("{:?}", e));
+                false
+            }
+        };
+        let after = (l.total_limit_remaining, l.memory_limit_remaining, l.field_limit_remaining);
+        if ok != fits {
+            r = r.fail("limits-accept", format!("{} bytes (in_memory={}) on {:?}: accepted={}", bytes, in_mem, before, ok));
+        }
+        if after.0 > before.0 || after.1 > before.1 || after.2.unwrap_or(0) > before.2.unwrap_or(0) {
+            r = r.fail("limits-underflow", format!("budget grew: {:?} -> {:?}", before, after));
+        }
+        if ok && (before.0 - after.0 != bytes || before.1 - after.1 != if in_mem { bytes } else { 0 } || before.2.map_or(false, |f| f - after.2.unwrap_or(0) != bytes)) {
+            r = r.fail("limits-charge", format!("{} bytes charged wrongly: {:?} -> {:?}", bytes, before, after));
+        }
+        out.push(format!("{}@{},{},{}", ok as u8, after.0, after.1, after.2.map_or("-".to_owned(), |f| f.to_string())));
+    }
+    r.output = out.join(" ");
+    r.tag("ex:limits")
+}
+
 fn run(case: &str) -> CaseResult {
     match kv(case, "ex") {
+        Some("lim") => run_limits(case),
         Some("mp") => run_mp(case),
         Some("fb") => run_fb(case),
         Some(ex) => run_stream(case, ex),
@@ -1150,6 +1286,12 @@ fn gen(ctx: &Ctx) -> Vec<String> {
     // (C) the default limits (no config in app data), ±1
     for (ex, d) in [("bytes", 262_144usize), ("string", 262_144), ("json", 2_097_152), ("form", 16_384), ("jb", 2_097_152), ("ue", 32_768)] {
         for n in [d - 1, d, d + 1] {
+            // the 2 MiB bodies are the most expensive cases of the run: quick tier keeps the two
+            // that decide the boundary
+            let big = d > 1_000_000 && !thorough;
+            if big && n == d - 1 {
+                continue;
+            }
             let body = match ex {
                 "json" | "jb" => format!("j:{}", n),
                 "form" | "ue" => format!("f:{}", n),
@@ -1158,13 +1300,39 @@ fn gen(ctx: &Ctx) -> Vec<String> {
             };
             cases.push(stream_case(ex, "dflt", "none", "id", &body, &random_cuts(&mut rng, n, 9, false)));
             cases.push(stream_case(ex, "dflt", &n.to_string(), "id", &body, &[Tok::Chunk(n)]));
-            let w = compress("gz", &body_of_spec(&body)).len();
-            cases.push(stream_case(ex, "dflt", "none", "gz", &body, &random_cuts(&mut rng, w, 4, false)));
+            if !big {
+                let w = compress("gz", &body_of_spec(&body)).len();
+                cases.push(stream_case(ex, "dflt", "none", "gz", &body, &random_cuts(&mut rng, w, 4, false)));
+            }
         }
     }
     // HttpMessageBody::new's built-in check against the default is overridden by .limit()
     cases.push(stream_case("bytes", "300000", "299999", "id", "r:1:299999", &[Tok::Chunk(299999)]));
     cases.push(stream_case("bytes", "300000", "300001", "id", "r:1:10", &[Tok::Chunk(10)]));
+
+    // (S) through a real App service with a real h1 payload (single chunk)
+    for _ in 0..ctx.budget(400) {
+        let ex = *rng.pick(&["bytes", "string", "json", "form"]);
+        let lim = *rng.pick(&[0usize, 1, 5, 16, 100, 1024, 4096]);
+        let n = match rng.below(5) {
+            0 => lim.saturating_sub(1),
+            1 => lim,
+            2 => lim + 1,
+            3 => 4 * lim,
+            _ => rng.below(2 * lim + 3),
+        };
+        let enc = if rng.chance(1, 3) { *rng.pick(ENCS) } else { "id" };
+        let body = body_for(ex, n, &mut rng);
+        let w = compress(enc, &body_of_spec(&body)).len();
+        let cl = match rng.below(6) {
+            0 => rng.below(2 * lim + 2).to_string(),
+            1 => (lim + 1).to_string(),
+            2 => "bad".into(),
+            _ => w.to_string(),
+        };
+        let lim_s = if rng.chance(1, 12) { "dflt".to_owned() } else { lim.to_string() };
+        cases.push(format!("{} via=svc", stream_case(ex, &lim_s, &cl, enc, &body, &[Tok::Chunk(w)])));
+    }
 
     // (D) decompression bombs: tiny wire image, huge decoded image, small limit (O6)
     for enc in ["gz", "df", "br", "zs"] {
@@ -1243,6 +1411,29 @@ fn gen(ctx: &Ctx) -> Vec<String> {
             toks = t2;
         }
         cases.push(format!("ex=fb lim={} body={} cuts={}", lim, body, cuts_str(&toks)));
+    }
+
+    // (L) the public Limits API, call by call
+    for _ in 0..ctx.budget(400) {
+        let total = rng.below(60);
+        let mem = rng.below(40);
+        let field = if rng.chance(1, 2) { rng.below(30).to_string() } else { "none".to_owned() };
+        let k = rng.range(1, 12);
+        let ops: Vec<String> = (0..k).map(|_| format!("{}:{}", rng.below(25), rng.below(2))).collect();
+        cases.push(format!("ex=lim total={} mem={} field={} ops={}", total, mem, field, ops.join(",")));
+    }
+
+    // (F0) multipart default budgets (no explicit config values): 2 MiB memory, 50 MiB total, ±1
+    for n in [2_097_151usize, 2_097_152, 2_097_153] {
+        cases.push(format!("ex=mp form=A total=dflt mem=dflt fields=b:{} cuts=65536,p,100000", n));
+    }
+    for n in [52_428_800usize, 52_428_801] {
+        if !thorough && n == 52_428_800 {
+            continue;
+        }
+        // an unknown field is discarded chunk by chunk but still charged to the total budget
+        let overhead = 0;
+        cases.push(format!("ex=mp form=B total=dflt mem=dflt fields=u:{} cuts=1000000", n - overhead));
     }
 
     // (F) multipart forms
